@@ -12,7 +12,9 @@
  *   T src|mask tx ty | P src|mask repeat   pixman_image_set_transform (translation) | _set_repeat
  *   (A, AO, AD, C, F, T, P may be repeated in any order: S logs the FINAL properties)
  *   C dst|src|mask n (x1 y1 x2 y2)*        pixman_image_set_clip_region32 (n = -1: NULL); C16: the 16-bit setter
- *   CA src|mask n (x1 y1 x2 y2)*           clip region on that image's alpha map (flags off: inert)
+ *   CA src|mask n (x1 y1 x2 y2)*           clip region on that image's alpha map (inert unless FA enables it)
+ *   FA src|mask clip_sources client_clip   the same two flags on that image's ALPHA MAP: with both on, the map's clip
+ *                                          takes part in the composite region, placed at the alpha origin
  *   F src|mask clip_sources client_clip    pixman_image_set_source_clipping / _set_has_client_clip
  *   G id fmt w h ox oy seed                glyph id (image + origin) inserted into the glyph cache
  *   S                                      log the Setup event
@@ -37,6 +39,8 @@ static pixman_image_t *simg[3];              /* [1] src, [2] mask */
 static uint32_t *sbits[3];
 static pixman_image_t *salpha[3];
 static uint32_t *salphabits[3];
+static fc_clipstate_t acst[3];      /* clip state of the alpha maps of src / mask (index 1, 2) */
+static int a_ox[3], a_oy[3];
 static pixman_glyph_cache_t *cache;
 #define MAXG 16
 static const void *glyph[MAXG];
@@ -62,6 +66,7 @@ free_source (int r)
     simg[r] = salpha[r] = NULL;
     sbits[r] = salphabits[r] = NULL;
     memset (&cst[r], 0, sizeof cst[r]);
+    memset (&acst[r], 0, sizeof acst[r]);
 }
 
 static void
@@ -242,6 +247,9 @@ main (int argc, char **argv)
 		salphabits[r] = random_bits (code, v[0], v[1], 99, &st);
 		salpha[r] = pixman_image_create_bits (code, v[0], v[1], salphabits[r], st);
 		pixman_image_set_alpha_map (simg[r], salpha[r], (int16_t)v[2], (int16_t)v[3]);
+		memset (&acst[r], 0, sizeof acst[r]);      /* a new map: no clip, flags off */
+		acst[r].present = 2;
+		a_ox[r] = v[2]; a_oy[r] = v[3];
 		if (old) pixman_image_unref (old);
 		free (oldbits);
 	    }
@@ -262,7 +270,11 @@ main (int argc, char **argv)
 		d_attached = 1;
 	    }
 	    else if (salpha[r])
+	    {
 		pixman_image_set_alpha_map (simg[r], salpha[r], (int16_t)v[0], (int16_t)v[1]);
+		acst[r].present = 2;
+		a_ox[r] = v[0]; a_oy[r] = v[1];
+	    }
 	}
 	else if (!strcmp (cmd, "AD"))
 	{
@@ -276,7 +288,10 @@ main (int argc, char **argv)
 		d_attached = 0;
 	    }
 	    else
+	    {
 		pixman_image_set_alpha_map (simg[r], NULL, 0, 0);
+		acst[r].present = 0;
+	    }
 	}
 	else if (!strcmp (cmd, "T"))
 	{
@@ -317,7 +332,6 @@ main (int argc, char **argv)
 	    /* CA src|mask n boxes: clip region on the role's ALPHA MAP (its clip_sources / client_clip stay off, so the
 	     * clip takes no part in any region); n = -1: NULL */
 	    int r, n;
-	    fc_clipstate_t tmp;
 	    if (fscanf (in, "%15s", role) != 1) return 3;
 	    r = role_of (role);
 	    fc_read_ints (in, &n, 1);
@@ -325,7 +339,25 @@ main (int argc, char **argv)
 	    if (n > 0)
 		fc_read_ints (in, vals, 4 * n);
 	    if (r != 0 && salpha[r])
-		fc_set_clip (salpha[r], &tmp, n, vals);
+	    {
+		int keep = acst[r].present;
+		fc_set_clip (salpha[r], &acst[r], n, vals);
+		acst[r].present = keep;
+	    }
+	}
+	else if (!strcmp (cmd, "FA"))
+	{
+	    int r, v[2];
+	    if (fscanf (in, "%15s", role) != 1) return 3;
+	    r = role_of (role);
+	    fc_read_ints (in, v, 2);
+	    if (r != 0 && salpha[r])
+	    {
+		pixman_image_set_source_clipping (salpha[r], v[0]);
+		pixman_image_set_has_client_clip (salpha[r], v[1]);
+		acst[r].cs = v[0];
+		acst[r].cc = v[1];
+	    }
 	}
 	else if (!strcmp (cmd, "F"))
 	{
@@ -362,6 +394,8 @@ main (int argc, char **argv)
 	}
 	else if (!strcmp (cmd, "S"))
 	{
+	    fc_am_clip[1] = &acst[1]; fc_am_clip[2] = &acst[2];
+	    fc_am_ox[1] = a_ox[1]; fc_am_oy[1] = a_oy[1]; fc_am_ox[2] = a_ox[2]; fc_am_oy[2] = a_oy[2];
 	    fc_log_setup (&dst, &cst[0], d_attached ? &dalpha : NULL, d_ox, d_oy, &cst[1], &cst[2], NULL);
 	}
 	else if (!strcmp (cmd, "composite") || !strcmp (cmd, "composite16"))
